@@ -11,7 +11,7 @@ the reference nor, confirmed on the same program, in the real interpreter."""
 from common import Check, batch, vacuity
 import refactor as rf
 
-TYPE_RELATED = {"TypeError", "Arity", "ExpectedFunction", "MethodError", "NoCase", "NoSuchVariable", "NotBound"}
+TYPE_RELATED = {"TypeError", "Arity", "ExpectedFunction", "MethodError", "NoCase", "NoSuchVariable", "NotBound", "NoField"}
 
 
 def run(tier, seed):
@@ -20,7 +20,7 @@ def run(tier, seed):
     import gen_prog
     import refrun
     rnd = random.Random(seed * 83 + 16)
-    progs, srcs = refrun.gen_programs(seed + 161, 400 if tier == "quick" else 4000, 5, err_rate=0.35)
+    progs, srcs = refrun.gen_programs(seed + 161, 400 if tier == "quick" else 4000, 5, err_rate=0.35, features={"ext": True})
     # one more kind of mistake, placed where the closure's own return type matters: a `return` of the wrong
     # type as the first statement of a closure (whose declared return type differs from what surrounds it)
     for p in progs:
